@@ -249,6 +249,12 @@ func copyVal(v value) value {
 			a[i] = copyVal(v[i])
 		}
 		return a
+	case *BuilderV:
+		// strings.Builder is a struct: assignment copies it
+		if v == nil {
+			return v
+		}
+		return &BuilderV{b: append([]*smt.Term{}, v.b...)}
 	}
 	return v
 }
